@@ -75,6 +75,7 @@ type scaleEnv struct {
 	buf     *obBuf
 	onReturn func(*ast.ReturnStmt)
 	ff      *core.FuncFlow
+	depth   int
 }
 
 // resultExp is the documented result precision of the Amount operations:
@@ -136,12 +137,131 @@ func (e *scaleEnv) expOfAmount(x ast.Expr) (lin, bool) {
 			}
 			return extremum(op, a, b), true
 		}
+		if rs, ok := e.callHelper(v); ok && len(rs) >= 1 && isAmountType(fn.Type().(*types.Signature).Results().At(0).Type()) {
+			return rs[0], true
+		}
 	case *ast.CompositeLit:
 		if _, ef, ok := e.literal(v); ok {
 			return ef, true
 		}
 	}
 	return nil, false
+}
+
+// callHelper evaluates a call of a function of package num that is not one of
+// the documented operations: its body is walked with the receiver and the
+// parameters standing for what the caller passed, and the forms of the results
+// are handed back when every return agrees on them (amounts: exponent form;
+// exponent-typed results: value form; other numbers: decimal scale).
+func (e *scaleEnv) callHelper(call *ast.CallExpr) ([]lin, bool) {
+	fn := core.Callee(e.info, call)
+	if fn == nil || !core.InModule(fn.Pkg()) || e.depth > 3 {
+		return nil, false
+	}
+	cfd := e.c.P.DeclOf(fn)
+	if cfd == nil || cfd.Decl.Body == nil || core.RelPkg(fn.Pkg().Path()) != "num" {
+		return nil, false
+	}
+	if _, documented := resultExp[fn.Name()]; documented {
+		return nil, false
+	}
+	sub := &scaleEnv{c: e.c, fd: cfd, info: cfd.Pkg.TypesInfo, amtExp: map[*types.Var]lin{}, valForm: map[*types.Var]lin{}, scale: map[*types.Var]lin{}, amtVal: map[*types.Var]lin{}, depth: e.depth + 1}
+	sub.buf = &obBuf{m: map[string]*bufOb{}} // the helper's own obligations are judged where it is evaluated on its own
+	bind := func(pv *types.Var, arg ast.Expr) bool {
+		if pv == nil || arg == nil {
+			return true
+		}
+		switch {
+		case isAmountType(pv.Type()):
+			f, ok := e.expOfAmount(arg)
+			if !ok {
+				return false
+			}
+			sub.amtExp[pv] = f
+			if vr := e.amountVar(arg); vr != nil {
+				if vs, apart := e.amtVal[vr]; apart {
+					sub.amtVal[pv] = vs
+				}
+			}
+		default:
+			b, _ := pv.Type().Underlying().(*types.Basic)
+			if b == nil {
+				return true
+			}
+			if b.Kind() == types.Uint32 || b.Kind() == types.Int {
+				f, ok := e.expValue(arg)
+				if !ok {
+					return false
+				}
+				sub.valForm[pv] = f
+			} else if b.Info()&(types.IsInteger|types.IsFloat) != 0 {
+				if f, ok := e.quantity(arg); ok {
+					sub.scale[pv] = f
+				}
+			}
+		}
+		return true
+	}
+	if rv := recvVar(cfd); rv != nil {
+		if !bind(rv, core.RecvExpr(call)) {
+			return nil, false
+		}
+	}
+	csig := fn.Type().(*types.Signature)
+	if csig.Variadic() {
+		return nil, false
+	}
+	for i := 0; i < csig.Params().Len() && i < len(call.Args); i++ {
+		if !bind(csig.Params().At(i), call.Args[i]) {
+			return nil, false
+		}
+	}
+	var results [][]lin
+	okAll := true
+	sub.onReturn = func(r *ast.ReturnStmt) {
+		if len(r.Results) != csig.Results().Len() {
+			okAll = false
+			return
+		}
+		var row []lin
+		for i, x := range r.Results {
+			var f lin
+			ok := false
+			rt := csig.Results().At(i).Type()
+			switch {
+			case isAmountType(rt):
+				if cl, isLit := ast.Unparen(x).(*ast.CompositeLit); isLit {
+					_, f, ok = sub.literal(cl)
+				} else {
+					f, ok = sub.expOfAmount(x)
+				}
+			default:
+				if b, _ := rt.Underlying().(*types.Basic); b != nil && (b.Kind() == types.Uint32 || b.Kind() == types.Int) {
+					f, ok = sub.expValue(x)
+				} else {
+					f, ok = sub.quantity(x)
+				}
+			}
+			if !ok {
+				okAll = false
+				return
+			}
+			row = append(row, f)
+		}
+		results = append(results, row)
+	}
+	sub.stmts(cfd.Decl.Body.List)
+	if !okAll || len(results) == 0 {
+		return nil, false
+	}
+	for _, row := range results[1:] {
+		for i := range row {
+			if !row[i].eq(results[0][i]) {
+				return nil, false
+			}
+		}
+	}
+	return results[0], true
 }
 
 func (e *scaleEnv) expOfVar(vr *types.Var) lin {
@@ -303,6 +423,11 @@ func (e *scaleEnv) quantity(x ast.Expr) (lin, bool) {
 						return sub.quantity(r.Results[0])
 					}
 				}
+			}
+		}
+		if fn != nil {
+			if rs, ok := e.callHelper(v); ok && len(rs) >= 1 && !isAmountType(fn.Type().(*types.Signature).Results().At(0).Type()) {
+				return rs[0], true
 			}
 		}
 	case *ast.BinaryExpr:
@@ -501,7 +626,27 @@ func (e *scaleEnv) stmts(list []ast.Stmt) bool {
 			} else if len(st.Rhs) == 1 {
 				// a, a2 = rescaleAmountPair(a, a2): both get one common exponent
 				if call, ok := ast.Unparen(st.Rhs[0]).(*ast.CallExpr); ok {
-					if fn := core.Callee(e.info, call); fn != nil && commonExpPair(e.c, fn) {
+					if rs, ok := e.callHelper(call); ok && len(rs) == len(st.Lhs) {
+						for i, l := range st.Lhs {
+							v := core.VarOf(e.info, l)
+							if v == nil {
+								if id, isID := l.(*ast.Ident); isID {
+									v, _ = e.info.Defs[id].(*types.Var)
+								}
+							}
+							if v == nil {
+								continue
+							}
+							delete(e.amtVal, v)
+							if isAmountType(v.Type()) {
+								e.amtExp[v] = rs[i]
+							} else if b, _ := v.Type().Underlying().(*types.Basic); b != nil && (b.Kind() == types.Uint32 || b.Kind() == types.Int) {
+								e.valForm[v] = rs[i]
+							} else {
+								e.scale[v] = rs[i]
+							}
+						}
+					} else if fn := core.Callee(e.info, call); fn != nil && commonExpPair(e.c, fn) {
 						for _, l := range st.Lhs {
 							if v := core.VarOf(e.info, l); v != nil {
 								e.amtExp[v] = lin{"common.exp": 1}
@@ -1172,34 +1317,33 @@ func c05RoundsOnce(c *core.Ctx) {
 // is judged with the comparisons known true or false where it stands.
 func c05Extremum(c *core.Ctx) {
 	p := c.P
-	for _, nm := range []string{"RescaleUp", "RescaleDown"} {
+	for _, nm := range []string{"RescaleUp", "RescaleDown", "MatchPrecision"} {
 		fd := p.Func("num", "Amount", nm)
 		if fd == nil {
 			c.Ob("C05-R2", "UNRESOLVED:num.Amount."+nm, token.NoPos, false, "method not found")
 			continue
 		}
-		info := fd.Pkg.TypesInfo
 		recv := recvVar(fd)
 		sig := fd.Obj.Type().(*types.Signature)
-		if sig.Params().Len() != 1 {
+		if sig.Params().Len() != 1 || recv == nil {
 			c.Undecided("C05-R2", fd.Name()+"#extremum", fd.Decl.Pos(), "unexpected signature")
 			continue
 		}
 		param := sig.Params().At(0)
-		ff := core.NewFuncFlow(fd)
-		isRecvExp := func(x ast.Expr) bool {
-			x = ast.Unparen(x)
-			if se, ok := x.(*ast.SelectorExpr); ok && se.Sel.Name == "exp" && core.VarOf(info, se.X) == recv {
-				return true
-			}
-			if call, ok := x.(*ast.CallExpr); ok {
-				if fn := core.Callee(info, call); fn != nil && fn.Name() == "Exp" && core.VarOf(info, core.RecvExpr(call)) == recv {
-					return true
-				}
-			}
-			return false
+		recvF := lin{recv.Name() + ".exp": 1}
+		otherF := lin{param.Name(): 1}
+		if isAmountType(param.Type()) {
+			otherF = lin{param.Name() + ".exp": 1}
 		}
-		// relation of param to recv.exp known at a node: bit 1 `<`, 2 `==`, 4 `>` still possible
+		op := "max"
+		if nm == "RescaleDown" {
+			op = "min"
+		}
+		wantF := extremum(op, recvF, otherF)
+		e := &scaleEnv{c: c, fd: fd, info: fd.Pkg.TypesInfo, amtExp: map[*types.Var]lin{}, valForm: map[*types.Var]lin{}, scale: map[*types.Var]lin{}, amtVal: map[*types.Var]lin{}}
+		e.buf = &obBuf{m: map[string]*bufOb{}}
+		ff := core.NewFuncFlow(fd)
+		// relation of the other exponent to the receiver's known at a node: bit 1 `<`, 2 `==`, 4 `>` still possible
 		relAt := func(at ast.Node) int {
 			poss := 7
 			for leaf, val := range ff.Flow.CondsAt(at) {
@@ -1207,12 +1351,17 @@ func c05Extremum(c *core.Ctx) {
 				if !ok {
 					continue
 				}
-				var set int // relations (param ? recv.exp) for which the comparison is true
-				pl := core.VarOf(info, be.X) == param && isRecvExp(be.Y)
-				pr := core.VarOf(info, be.Y) == param && isRecvExp(be.X)
+				a, ok1 := e.expValue(be.X)
+				b, ok2 := e.expValue(be.Y)
+				if !ok1 || !ok2 {
+					continue
+				}
+				pl := a.eq(otherF) && b.eq(recvF)
+				pr := a.eq(recvF) && b.eq(otherF)
 				if !pl && !pr {
 					continue
 				}
+				var set int // relations (other ? recv.exp) for which the comparison is true
 				switch be.Op {
 				case token.LSS:
 					set = 1
@@ -1229,7 +1378,7 @@ func c05Extremum(c *core.Ctx) {
 				default:
 					continue
 				}
-				if pr { // recv.exp OP param: mirror
+				if pr { // recv.exp OP other: mirror
 					m := 0
 					if set&1 != 0 {
 						m |= 4
@@ -1249,68 +1398,69 @@ func c05Extremum(c *core.Ctx) {
 			}
 			return poss
 		}
-		n := 0
-		for _, r := range ff.Flow.Returns() {
-			if !ff.Flow.Reachable(r) || len(r.Results) != 1 {
-				continue
+		type verdict struct {
+			pos     token.Pos
+			ok      bool
+			decided bool
+			msg     string
+		}
+		var order []token.Pos
+		verdicts := map[token.Pos]*verdict{}
+		e.onReturn = func(r *ast.ReturnStmt) {
+			if len(r.Results) != 1 {
+				return
 			}
-			n++
-			key := fmt.Sprintf("%s#extremum%d", fd.Name(), n)
+			v := verdicts[r.Pos()]
+			if v == nil {
+				v = &verdict{pos: r.Pos(), ok: true, decided: true}
+				verdicts[r.Pos()] = v
+				order = append(order, r.Pos())
+			}
+			var f lin
+			ok := false
+			if cl, isLit := ast.Unparen(r.Results[0]).(*ast.CompositeLit); isLit {
+				_, f, ok = e.literal(cl)
+			} else {
+				f, ok = e.expOfAmount(r.Results[0])
+			}
+			if !ok {
+				v.decided = false
+				v.msg = "the exponent of the result cannot be evaluated"
+				return
+			}
+			if f.eq(wantF) {
+				return
+			}
 			poss := relAt(r)
-			res := ast.Unparen(r.Results[0])
-			// which exponent does the result carry?
-			carries := ""
-			if core.VarOf(info, res) == recv {
-				carries = "recv"
-			} else if call, ok := res.(*ast.CallExpr); ok && isAmountMethod(core.Callee(info, call), "Rescale") && core.VarOf(info, core.RecvExpr(call)) == recv && len(call.Args) == 1 && core.VarOf(info, call.Args[0]) == param {
-				carries = "param"
-			}
-			if carries == "" {
-				c.Undecided("C05-R2", key, r.Pos(), "the result is neither the receiver nor the receiver rescaled to the argument")
-				continue
-			}
-			// RescaleUp: result must be max: param only where param >= recv.exp, recv only where param <= recv.exp
 			var allowed int
 			switch {
-			case nm == "RescaleUp" && carries == "param", nm == "RescaleDown" && carries == "recv":
-				allowed = 6 // param >= recv.exp
+			case f.eq(otherF) && op == "max", f.eq(recvF) && op == "min":
+				allowed = 6 // other >= recv.exp
+			case f.eq(recvF) && op == "max", f.eq(otherF) && op == "min":
+				allowed = 3 // other <= recv.exp
 			default:
-				allowed = 3 // param <= recv.exp
+				v.decided = false
+				v.msg = fmt.Sprintf("the result carries exponent %s, which is neither the receiver's, the argument's nor %s", f, wantF)
+				return
 			}
-			c.Ob("C05-R2", key, r.Pos(), poss&^allowed == 0, fmt.Sprintf("%s returns the amount at the %s's exponent where the argument may be %s the receiver's exponent: the result is not the %s of the two, which MatchPrecision and every precision-raising accumulation rely on",
-				fd.Name(), map[string]string{"recv": "receiver", "param": "argument"}[carries], map[bool]string{true: "above", false: "below"}[carries == "recv" && nm == "RescaleUp" || carries == "param" && nm == "RescaleDown"], map[string]string{"RescaleUp": "larger", "RescaleDown": "smaller"}[nm]))
+			if poss&^allowed != 0 {
+				v.ok = false
+				v.msg = fmt.Sprintf("%s returns an amount at exponent %s where the argument's exponent may lie on the other side of the receiver's: the result is not %s, which MatchPrecision and every precision-raising accumulation rely on", fd.Name(), f, wantF)
+			}
 		}
-		if n == 0 {
-			c.Undecided("C05-R2", fd.Name()+"#extremum", fd.Decl.Pos(), "no return found")
-		}
-	}
-	if fd := p.Func("num", "Amount", "MatchPrecision"); fd != nil {
-		info := fd.Pkg.TypesInfo
-		recv := recvVar(fd)
-		sig := fd.Obj.Type().(*types.Signature)
-		ff := core.NewFuncFlow(fd)
-		n := 0
-		for _, r := range ff.Flow.Returns() {
-			if !ff.Flow.Reachable(r) || len(r.Results) != 1 {
+		e.stmts(fd.Decl.Body.List)
+		for i, pos := range order {
+			v := verdicts[pos]
+			key := fmt.Sprintf("%s#extremum%d", fd.Name(), i+1)
+			if !v.decided {
+				c.Undecided("C05-R2", key, v.pos, v.msg)
 				continue
 			}
-			n++
-			ok := false
-			if call, isCall := ast.Unparen(r.Results[0]).(*ast.CallExpr); isCall && isAmountMethod(core.Callee(info, call), "RescaleUp") && core.VarOf(info, core.RecvExpr(call)) == recv && len(call.Args) == 1 {
-				arg := ast.Unparen(call.Args[0])
-				if se, isSel := arg.(*ast.SelectorExpr); isSel && se.Sel.Name == "exp" && sig.Params().Len() == 1 && core.VarOf(info, se.X) == sig.Params().At(0) {
-					ok = true
-				}
-				if c2, isC := arg.(*ast.CallExpr); isC {
-					if fn := core.Callee(info, c2); fn != nil && fn.Name() == "Exp" && sig.Params().Len() == 1 && core.VarOf(info, core.RecvExpr(c2)) == sig.Params().At(0) {
-						ok = true
-					}
-				}
-			}
-			c.Ob("C05-R2", fmt.Sprintf("%s#extremum%d", fd.Name(), n), r.Pos(), ok, "MatchPrecision is not the receiver raised (RescaleUp) to the other amount's exponent")
+			c.Ob("C05-R2", key, v.pos, v.ok, v.msg)
 		}
-	} else {
-		c.Ob("C05-R2", "UNRESOLVED:num.Amount.MatchPrecision", token.NoPos, false, "method not found")
+		if len(order) == 0 {
+			c.Undecided("C05-R2", fd.Name()+"#extremum", fd.Decl.Pos(), "no return found")
+		}
 	}
 }
 
@@ -1335,7 +1485,8 @@ func c05Percentage(c *core.Ctx) {
 		div := usesF100(fd, "Divide")
 		up := false
 		if div != nil {
-			if rc, ok := ast.Unparen(core.RecvExpr(div)).(*ast.CallExpr); ok {
+			ld := core.NewLocalDefs(fd.Pkg.TypesInfo, fd.Decl.Body)
+			if rc, ok := ast.Unparen(ld.Resolve(ast.Unparen(core.RecvExpr(div)), 3)).(*ast.CallExpr); ok {
 				if fn := core.Callee(fd.Pkg.TypesInfo, rc); fn != nil && fn.Name() == "Rescale" {
 					if be, ok := ast.Unparen(rc.Args[0]).(*ast.BinaryExpr); ok && be.Op == token.ADD {
 						if tv, ok := fd.Pkg.TypesInfo.Types[be.Y]; ok && tv.Value != nil && tv.Value.String() == "2" {
@@ -1958,13 +2109,119 @@ func c05UpscaleIsRescalePlus(p *core.Program) bool {
 // equalsByCompare: every decision the method takes (returned expressions
 // and branch conditions) is `x.Compare(y) == 0` or `x.Equals(y)` over the
 // receiver and the argument, and the body reads no raw value or exponent.
-func equalsByCompare(fd *core.FuncDecl) (bool, string) {
+func equalsByCompare(p *core.Program, fd *core.FuncDecl) (bool, string) {
 	info := fd.Pkg.TypesInfo
 	ld := core.NewLocalDefs(info, fd.Decl.Body)
 	resolve := func(e ast.Expr, _ int) ast.Expr { return ast.Unparen(ld.Resolve(ast.Unparen(e), 4)) }
+	// raw members: only `x.exp == y.exp` tests, and value comparisons where that test holds
+	isRaw := func(e ast.Expr, name string) bool {
+		se, ok := ast.Unparen(e).(*ast.SelectorExpr)
+		if !ok {
+			return false
+		}
+		v, ok := info.Uses[se.Sel].(*types.Var)
+		return ok && v.IsField() && v.Name() == name
+	}
+	ff := core.NewFuncFlow(fd)
+	sameExpAt := func(n ast.Node) bool {
+		cn := ff.Flow.EnclosingNode(n)
+		if cn == nil {
+			return false
+		}
+		for leaf, val := range ff.Flow.CondsAt(cn) {
+			if be, ok := ast.Unparen(leaf).(*ast.BinaryExpr); ok && isRaw(be.X, "exp") && isRaw(be.Y, "exp") {
+				if (be.Op == token.EQL && val) || (be.Op == token.NEQ && !val) {
+					return true
+				}
+			}
+		}
+		return false
+	}
 	raw := ""
+	okRaw := map[ast.Node]bool{}
+	// operands prepared by the helper Compare itself prepares its operands with
+	// (rescaleAmountPair and the like): `x, y := F(a, b)` with a, b the two whole operands
+	prepared := map[*types.Var]*ast.AssignStmt{}
+	if cfd := p.Func("num", "Amount", "Compare"); cfd != nil {
+		helpers := map[*types.Func]bool{}
+		ast.Inspect(cfd.Decl.Body, func(n ast.Node) bool {
+			if as, ok := n.(*ast.AssignStmt); ok && len(as.Lhs) == 2 && len(as.Rhs) == 1 {
+				if call, ok := ast.Unparen(as.Rhs[0]).(*ast.CallExpr); ok && len(call.Args) == 2 {
+					if f := core.Callee(cfd.Pkg.TypesInfo, call); f != nil && core.InModule(f.Pkg()) {
+						helpers[f.Origin()] = true
+					}
+				}
+			}
+			return true
+		})
+		sig := fd.Obj.Type().(*types.Signature)
+		whole := func(e ast.Expr) int { // 1 receiver, 2 argument (whole, or its amount member)
+			e = ast.Unparen(e)
+			if se, ok := e.(*ast.SelectorExpr); ok && se.Sel.Name == "amount" {
+				e = ast.Unparen(se.X)
+			}
+			v := core.VarOf(info, e)
+			switch {
+			case v != nil && v == sig.Recv():
+				return 1
+			case v != nil && sig.Params().Len() == 1 && v == sig.Params().At(0):
+				return 2
+			}
+			return 0
+		}
+		ast.Inspect(fd.Decl.Body, func(n ast.Node) bool {
+			as, ok := n.(*ast.AssignStmt)
+			if !ok || len(as.Lhs) != 2 || len(as.Rhs) != 1 {
+				return true
+			}
+			call, ok := ast.Unparen(as.Rhs[0]).(*ast.CallExpr)
+			if !ok || len(call.Args) != 2 {
+				return true
+			}
+			f := core.Callee(info, call)
+			if f == nil || !helpers[f.Origin()] || whole(call.Args[0])+whole(call.Args[1]) != 3 {
+				return true
+			}
+			for _, l := range as.Lhs {
+				if v := core.VarOf(info, l); v != nil {
+					prepared[v] = as
+				} else if id, ok := l.(*ast.Ident); ok {
+					if v, ok := info.Defs[id].(*types.Var); ok {
+						prepared[v] = as
+					}
+				}
+			}
+			return true
+		})
+	}
+	preparedOperand := func(e ast.Expr) *ast.AssignStmt {
+		e = ast.Unparen(e)
+		if se, ok := e.(*ast.SelectorExpr); ok && se.Sel.Name == "value" {
+			e = ast.Unparen(se.X)
+		}
+		if v := core.VarOf(info, e); v != nil {
+			return prepared[v]
+		}
+		return nil
+	}
 	ast.Inspect(fd.Decl.Body, func(n ast.Node) bool {
-		if se, ok := n.(*ast.SelectorExpr); ok {
+		if be, ok := n.(*ast.BinaryExpr); ok && (be.Op == token.EQL || be.Op == token.NEQ) {
+			if a, b := preparedOperand(be.X), preparedOperand(be.Y); a != nil && a == b && exprKey(be.X) != exprKey(be.Y) {
+				okRaw[ast.Unparen(be.X)], okRaw[ast.Unparen(be.Y)] = true, true
+				okRaw[be] = true
+			}
+			if isRaw(be.X, "exp") && isRaw(be.Y, "exp") {
+				okRaw[ast.Unparen(be.X)], okRaw[ast.Unparen(be.Y)] = true, true
+			}
+			if isRaw(be.X, "value") && isRaw(be.Y, "value") && sameExpAt(be) {
+				okRaw[ast.Unparen(be.X)], okRaw[ast.Unparen(be.Y)] = true, true
+				okRaw[be] = true
+			}
+		}
+		return true
+	})
+	ast.Inspect(fd.Decl.Body, func(n ast.Node) bool {
+		if se, ok := n.(*ast.SelectorExpr); ok && !okRaw[se] {
 			if v, ok := info.Uses[se.Sel].(*types.Var); ok && v.IsField() && (v.Name() == "value" || v.Name() == "exp") {
 				raw = "reads ." + v.Name() + " directly"
 			}
@@ -1977,6 +2234,12 @@ func equalsByCompare(fd *core.FuncDecl) (bool, string) {
 	var accepted func(e ast.Expr) bool
 	accepted = func(e ast.Expr) bool {
 		e = resolve(e, 0)
+		if okRaw[e] {
+			return true
+		}
+		if be, ok := e.(*ast.BinaryExpr); ok && isRaw(be.X, "exp") && isRaw(be.Y, "exp") {
+			return true
+		}
 		switch x := e.(type) {
 		case *ast.UnaryExpr:
 			return x.Op == token.NOT && accepted(x.X)
@@ -2050,7 +2313,8 @@ func numEqualsByCompare(c *core.Ctx, rule string) {
 			c.Ob(rule, "UNRESOLVED:num."+recv+".Equals", token.NoPos, false, "method not found")
 			continue
 		}
-		ok, why := equalsByCompare(fd)
+		ok, why := equalsByCompare(p, fd)
 		c.Ob(rule, fd.Name(), fd.Decl.Pos(), ok, "Equals is not Compare == 0 of the two whole quantities ("+why+"): equality would depend on which operand carries more decimals")
 	}
 }
+
